@@ -194,7 +194,7 @@ F4_ARGLISTS = {"v0": ["", "a", "a , b", ",", "E@", "( a , b ) , c", "a ,", "M@ ,
 F4_EXTRA_BODIES = ["p , ## V", ", ## V", "x , ## V y", "f ( p , ## V )", "O( , ) V", "x O( , V ) y", "O( # V )",
                    "# O( V )", "O( p ## V )", "x ## O( y )", "O( x ) ## y", "O( x ## ) y", "O( ( V ) )", "O( V V )",
                    "O( p ) O( p )", "p O( O( x ) )", "x ## V ## p", "# V # p", "# p , # V", "V ## V", "O( ) ## x",
-                   "x ## O( )", "O( , ## V )", ", ## V ## x", ", ## p", "p ## , ## V"]
+                   "x ## O( )", "O( , ## V )", ", ## V ## x", ", ## p", "p ## , ## V", "p ## V ## p", "V ## V ## V", "p ## V ## x"]
 
 
 def f4_body_ok(body):
@@ -472,7 +472,13 @@ def classify(case, features, exp, status, got):
         sub = va_opt_subclass(case, features)
         if sub != "plain-content":
             return "C09|__VA_OPT__|%s|%s" % (sub, "rejected" if status != 0 else "tokens-differ")
-    objlike = d0.startswith("#define F@ ")
+    objlike = False
+    try:
+        dt = cpp.lex(d0.replace("@", ""))
+        k = next(i for i, t in enumerate(dt) if t.s == "define")
+        objlike = not cpp.parse_define(dt[k + 1:]).funclike
+    except Exception:
+        pass
     if status == 0 and objlike and "##" in got and ("paste-tokens" in features or "paste-placemarker" in features):
         return "C09|paste|object-like-macro-body|##-not-evaluated"
     if exp and exp[0] == "#" and (status != 0 or got != exp):
@@ -554,7 +560,8 @@ def _shard(args):
     res = {"cases": 0, "judged": 0, "nontrivial_hashes": [], "skipped_undefined": {}, "oracle_disagreements": 0,
            "ref_rejected": 0, "chibicc_runs": 0, "gcc_runs": 0, "viol": [], "viol_counts": {}, "done": False,
            "undefined_termination_checked": 0, "chain_judged": 0, "features": {}, "samples": [],
-           "unmodelled": 0, "dis_samples": [], "outcomes": {}, "model_errors": [], "harness_timeouts": 0}
+           "unmodelled": 0, "dis_samples": [], "outcomes": {}, "model_errors": [], "harness_timeouts": 0,
+           "undefined_same_definition_not_rerun": 0}
     if time.time() > deadline:
         return res
     os.makedirs(wd, exist_ok=True)
@@ -637,9 +644,17 @@ def _shard(args):
                 r["gcc_rejected"] = True
 
     # ---- 3. chibicc alone ---------------------------------------------------------------------------------------
+    seen_bad_defs = set()
     for r in recs:
         if time.time() > deadline:
             return res
+        if r["undef"] and r["undef"].startswith("define:"):
+            # invalid definition: termination is checked once per distinct definition set, not per invocation
+            key = r["case"][2]
+            if key in seen_bad_defs:
+                res["undefined_same_definition_not_rerun"] += 1
+                continue
+            seen_bad_defs.add(key)
         st, out, err = run_chibicc(chibicc, wd, r["text"], T_ALONE)
         res["chibicc_runs"] += 1
         if st == "timeout":
@@ -847,7 +862,8 @@ def run(ctx):
     args = [(ctx.chibicc, os.path.join(ctx.work, "s%d" % i), i, work[i][1], deadline, work[i][0] == "F6") for i in order]
     results = core.pmap(_shard, args)
     tot = {"cases": 0, "judged": 0, "oracle_disagreements": 0, "ref_rejected": 0, "chibicc_runs": 0, "gcc_runs": 0,
-           "undefined_termination_checked": 0, "chain_judged": 0, "unmodelled": 0, "harness_timeouts": 0}
+           "undefined_termination_checked": 0, "chain_judged": 0, "unmodelled": 0, "harness_timeouts": 0,
+           "undefined_same_definition_not_rerun": 0}
     skipped = {}
     feats = {}
     outcomes = {}
@@ -889,11 +905,12 @@ def run(ctx):
         raise core.HarnessError("reference model raised on %d cases, e.g. %s" % (len(merr), merr[:3]))
     if unfinished:
         ctx.incomplete("%d of %d shards not finished before the deadline" % (unfinished, len(work)))
-    ctx.cover(evaluations=tot["cases"], judged=tot["judged"], distinct_nontrivial=len(hashes), rule=RULE,
+    ctx.cover(evaluations=tot["cases"] - tot["undefined_same_definition_not_rerun"], enumerated_cases=tot["cases"], judged=tot["judged"], distinct_nontrivial=len(hashes), rule=RULE,
               skipped_undefined=sum(skipped.values()), skipped_undefined_by_reason=skipped,
               oracle_disagreements=tot["oracle_disagreements"], ref_rejected=tot["ref_rejected"],
               chibicc_runs=tot["chibicc_runs"], gcc_runs=tot["gcc_runs"], chain_judged=tot["chain_judged"],
               undefined_termination_checked=tot["undefined_termination_checked"], model_unmodelled=tot["unmodelled"], harness_timeouts=tot["harness_timeouts"],
+              undefined_same_definition_not_rerun=tot["undefined_same_definition_not_rerun"],
               cases_per_family=fam_counts, per_family=per_fam, features_exercised=feats,
               oracle_disagreement_samples=dis[:6],
               bounds_completed={"F1": F1_BOUND[tier], "F2": F2_BOUND[tier], "F3": F3_BOUND[tier], "F4": F4_BOUND[tier],
